@@ -1,7 +1,7 @@
 """API-level harnesses: the call a user of the library writes (so descriptor/binding errors such
 as a missing @classmethod are part of what is verified).  Each harness is a few lines of
 straight-line Python over the real code and is part of the trusted base."""
-from buidl.network import PongMessage, PingMessage, VersionMessage
+from buidl.network import PongMessage, PingMessage, VersionMessage, GetDataMessage
 
 
 def pong_parse(s):
@@ -15,3 +15,13 @@ def ping_parse(s):
 def version_default(timestamp):
     """VersionMessage built with its default nonce, then serialised"""
     return VersionMessage(timestamp=timestamp).serialize()
+
+
+def getdata_build(n, t0, h0, t1, h1):
+    """the API a user writes: add_data() per entry (the first n of the two given), then serialize()"""
+    msg = GetDataMessage()
+    if n >= 1:
+        msg.add_data(t0, h0)
+    if n >= 2:
+        msg.add_data(t1, h1)
+    return msg.serialize()
